@@ -44,7 +44,7 @@ import re
 from psyclone.errors import InternalError
 
 
-def find_break_point(line, max_index, key_list):
+def find_break_point(line, max_index, key_list, min_length=0):
     ''' Finds the most appropriate line break point for the Fortran code in
     line.
 
@@ -57,6 +57,8 @@ def find_break_point(line, max_index, key_list):
                      elements, any possible position of the first element will
                      be found before trying any other element of the list.
     :type key_list: List[str]
+    :param int min_length: the minimum number of characters (excluding any \
+                           indentation) that must precede the line break.
 
     :returns: index to break the line into multiple lines.
     :rtype: int
@@ -68,7 +70,7 @@ def find_break_point(line, max_index, key_list):
     first_non_whitespace = len(line) - len(line.lstrip())
     for key in key_list:
         idx = line.rfind(key, first_non_whitespace+1, max_index)
-        if idx > 0:
+        if idx > 0 and idx+len(key)-first_non_whitespace >= min_length:
             return idx+len(key)
     raise InternalError(
         f"Error in find_break_point. No suitable break point found"
@@ -104,6 +106,7 @@ class FortLineLength():
         self._omp = re.compile(r'^\s*!\$OMP', flags=re.I)
         self._acc = re.compile(r'^\s*!\$ACC', flags=re.I)
         self._comment = re.compile(r'^\s*!')
+        self._sentinel = re.compile(r'^\s*!\$(OMP|ACC)&?\s*', flags=re.I)
 
     def long_lines(self, fortran_in):
         '''returns true if at least one of the lines in the input code is
@@ -129,7 +132,11 @@ class FortLineLength():
 
         '''
         fortran_out = ""
+        previous_line = ""
         for line in fortran_in.split('\n'):
+            # Does this line continue the previous one?
+            continued = previous_line.rstrip().endswith("&")
+            previous_line = line
             if len(line) > self._line_length:
                 line_type = self._get_line_type(line)
 
@@ -137,9 +144,20 @@ class FortLineLength():
                 c_end = self._cont_end[line_type]
                 key_list = self._key_lists[line_type]
 
+                min_length = 0
+                if continued and line_type in ["openmp_directive",
+                                               "openacc_directive"]:
+                    # A continuation line of a directive must not be broken
+                    # immediately after its sentinel: the '&' that we append
+                    # would be taken to be the optional '&' that can follow
+                    # the sentinel and the directive would end there.
+                    min_length = len(self._sentinel.match(
+                        line.lstrip()).group()) + 1
+
                 try:
                     break_point = find_break_point(
-                        line, self._line_length-len(c_end), key_list)
+                        line, self._line_length-len(c_end), key_list,
+                        min_length)
                 except InternalError:
                     # Couldn't find a valid point to break the line.
                     # Remove indentation and try again.
@@ -148,7 +166,8 @@ class FortLineLength():
                         fortran_out += line + "\n"
                         continue
                     break_point = find_break_point(
-                        line, self._line_length-len(c_end), key_list)
+                        line, self._line_length-len(c_end), key_list,
+                        min_length)
 
                 fortran_out += line[:break_point] + c_end + "\n"
                 line = line[break_point:]
